@@ -1,5 +1,6 @@
 //! Runs case files on the real a2lfile implementation.
 //! usage: implrun <KIND>   (cases on stdin, one s-expression per line; one answer line each)
+mod c12;
 mod c13;
 mod modops;
 mod sx;
@@ -21,6 +22,7 @@ fn main() {
         }
         let case = Sx::parse(&line);
         let res = match kind.as_str() {
+            "C12" => c12::run(&case),
             "C13" => c13::run(&case),
             "C14" | "C15" => modops::run(&case),
             _ => panic!("unknown case kind {kind}"),
